@@ -689,6 +689,11 @@ where
                                     events.push(GenericEvent::RequestClose);
                                 }
                             }
+                        } else if self.status == ConnectionStatus::Connecting {
+                            // No DISCONNECT may precede the CONNACK: give the attempt up
+                            self.status = ConnectionStatus::Disconnected;
+                            self.cancel_timers(&mut events);
+                            events.push(GenericEvent::RequestClose);
                         }
                     }
                     Version::Undetermined => {
@@ -722,6 +727,11 @@ where
                                     events.push(GenericEvent::RequestClose);
                                 }
                             }
+                        } else if self.status == ConnectionStatus::Connecting {
+                            // No DISCONNECT may precede the CONNACK: give the attempt up
+                            self.status = ConnectionStatus::Disconnected;
+                            self.cancel_timers(&mut events);
+                            events.push(GenericEvent::RequestClose);
                         }
                     }
                     Version::Undetermined => {
